@@ -161,9 +161,12 @@ def abort_helper(prog):
         if fr is None:
             continue
         body = prog.resolve_local(fr)
-        if body is None or body.path == r.path or body.arg_count != 3:
+        if body is None or body.path == r.path or body.arg_count < 3:
             continue
-        if "World" in body.local_ty(1) and body.local_ty(2) == st and body.local_ty(3) == ct:
+        # trailing label parameters (`ctx: &'static str`, a small integer or flag used for logging) do not change the role
+        extra_ok = all(body.local_ty(i).replace("'static ", "").replace("'_ ", "") in ("&str", "bool", "usize", "u32", "u8", "u64", "i32")
+                       for i in range(4, body.arg_count + 1))
+        if "World" in body.local_ty(1) and body.local_ty(2) == st and body.local_ty(3) == ct and extra_ok:
             cands[body.path] = body
     if len(cands) != 1:
         raise AnchorLost("abort helper: %d candidates" % len(cands))
